@@ -118,6 +118,7 @@ Lemma try_cast_slice_len ENV A B s v :
 Proof.
   intro_slice. open_cast Internal.try_cast_slice. unfold new_len. split_all. all: intros Hv; inv_ret; try discriminate.
   all: subst v; cbn [slen]; try reflexivity.
+  all: b2p; try lia; exfalso; lia.   (* the specification's tests and the code's, spelled differently *)
 Qed.
 
 Lemma try_cast_slice_mut_len ENV A B s v :
@@ -126,6 +127,7 @@ Lemma try_cast_slice_mut_len ENV A B s v :
 Proof.
   intro_slice. open_cast Internal.try_cast_slice_mut. unfold new_len. split_all. all: intros Hv; inv_ret; try discriminate.
   all: subst v; cbn [slen]; try reflexivity.
+  all: b2p; try lia; exfalso; lia.   (* the specification's tests and the code's, spelled differently *)
 Qed.
 
 (* the length computed by must_cast_slice: no division by zero, no overflow, and the same number
@@ -147,6 +149,27 @@ Proof.
     apply N.ltb_lt in Hlt. rewrite Hlt. reflexivity.
 Qed.
 
+(* the same, for however the code spells the computation (operand order, the size test either way
+   round): whatever expression stands in the code is shown to evaluate to new_len by case analysis on
+   its conditionals and arithmetic *)
+Lemma must_len_facts A B s :
+  wf_ty A -> wf_ty B -> valid_slice A s -> slice_infallible A B -> sz A <> sz B ->
+  sz B <> 0 /\ slen s * (sz A / sz B) < USIZE /\ slen s * sz A / sz B = slen s * (sz A / sz B).
+Proof.
+  intros HA HB (Hnn & Hal' & Hav & Hb & Hend & Hlen) [Hal Hsz] Hne.
+  destruct Hsz as [Z | [NZ Hm]].
+  - assert (NZ : sz B <> 0) by lia. split; [exact NZ|]. rewrite Z, N.div_0_l, !N.mul_0_r by assumption.
+    rewrite N.div_0_l by assumption. big_consts. lia.
+  - split; [exact NZ|]. split.
+    + pose proof (div_exact_mul (sz A) (sz B) NZ Hm). big_consts. nia.
+    + apply mul_div_exact; assumption.
+Qed.
+
+Ltac must_len_tac HF :=
+  unfold new_len, div_m, mul_m; repeat (red_bind; split_if); red_bind; b2p;
+  try (destruct HF as (? & ? & ?); [lia|]); big_consts;
+  try reflexivity; try (exfalso; lia); try (f_equal; lia).
+
 Theorem must_cast_slice_char ENV A B s :
   wf_ty A -> wf_ty B -> valid_slice A s ->
   if must_slice_okb A B
@@ -165,7 +188,9 @@ Proof.
     destruct (Must.ASSERT_SIZE_MULTIPLE_OF_OR_INPUT_ZST A B) as [[|]| |]; try discriminate.
     destruct (Must.ASSERT_ALIGN_GREATER_THAN_EQUAL A B) as [[|]| |]; try discriminate.
     cbn [const_assert bind].
-    rewrite (must_new_len A B s HA HB Hs Hinf). cbn [bind]. rewrite <- Hlen.
+    pose proof (must_len_facts A B s HA HB Hs Hinf) as HF.
+    match goal with |- bind ?e _ = _ => assert (He : e = Ret (new_len A B s)) by (must_len_tac HF); rewrite He end.
+    cbn [bind]. rewrite <- Hlen.
     destruct Hs as (Hnn & Hal' & Hav & Hb & Hend & Hl).
     unfold from_raw_parts, aligned_for. rewrite <- Hva. apply N.eqb_eq in Hval. rewrite Hval. cbn [negb].
     rewrite Hvn, Hav, N.leb_refl. cbn [negb].
@@ -198,7 +223,9 @@ Proof.
     destruct (Must.ASSERT_SIZE_MULTIPLE_OF_OR_INPUT_ZST A B) as [[|]| |]; try discriminate.
     destruct (Must.ASSERT_ALIGN_GREATER_THAN_EQUAL A B) as [[|]| |]; try discriminate.
     cbn [const_assert bind].
-    rewrite (must_new_len A B s HA HB Hs Hinf). cbn [bind]. rewrite <- Hlen.
+    pose proof (must_len_facts A B s HA HB Hs Hinf) as HF.
+    match goal with |- bind ?e _ = _ => assert (He : e = Ret (new_len A B s)) by (must_len_tac HF); rewrite He end.
+    cbn [bind]. rewrite <- Hlen.
     destruct Hs as (Hnn & Hal' & Hav & Hb & Hend & Hl).
     unfold from_raw_parts, aligned_for. rewrite <- Hva. apply N.eqb_eq in Hval. rewrite Hval. cbn [negb].
     rewrite Hvn, Hav, N.leb_refl. cbn [negb].
